@@ -30,7 +30,9 @@ func deleteChildOperator(d *dataTreeNavigator, context Context, expressionNode *
 			// locate the entry itself: comparing key text with the parsed path element
 			// never matches integer keys ({0: a} | del(.[0]) deleted nothing)
 			if index := indexOfChild(parentNode, candidate); index >= 0 {
-				deleteFromMap(candidate.Parent, parentNode.Content[index-index%2].Value)
+				// remove that entry and no other: an integer key and a string key can have the same text ({1: a, "1": b})
+				keyIndex := index - index%2
+				parentNode.Content = append(append(make([]*CandidateNode, 0, len(parentNode.Content)), parentNode.Content[:keyIndex]...), parentNode.Content[keyIndex+2:]...)
 			} else {
 				deleteFromMap(candidate.Parent, childPath)
 			}
